@@ -219,6 +219,9 @@ CORPUS = [
     ('markup-block', '/* @typstyle off */ #f( 1 ,2 )\n\n#f( 1 ,2 )\n', '#f( 1 ,2 )', '#f(1, 2)'),
     ('code-block', '#{\n  let a = 1\n  // @typstyle off\n  let   x  =  ( 1,2 )\n  let   y  =  ( 1,2 )\n}\n', 'let   x  =  ( 1,2 )', 'let y = (1, 2)'),
     ('code-body', '#{\n  // @typstyle off\n  let   x  =  ( 1,2 )\n  let   y  =  ( 1,2 )\n}\n#let   z=1\n', 'let   x  =  ( 1,2 )\n  let   y  =  ( 1,2 )', '#let z = 1'),
+    ('rhs-paren', '#let x = /* @typstyle off */ (a   +  b)\n#let y = (a   +  b)\n', '(a   +  b)', 'y = (a + b)'),
+    ('nested-paren', '#let z = (/* @typstyle off */ (a  +  b))\n', '(a  +  b)', None),
+    ('for-pattern', '#for /* @typstyle off */ ( a,b ) in c {}\n', '( a,b )', None),
     ('placeholder', '#let (/* @typstyle off */ _ , b ) = (1,2)\n', '_', 'b) = (1, 2)'),
     ('param', '#let f(/* @typstyle off */ ( a,b ) , c ) = 1\n', '( a,b )', None),
     ('argument', '#f(\n  // @typstyle off\n  ( 1,2 ),\n  ( 3,4 ),\n)\n', '( 1,2 )', '(3, 4)'),
